@@ -174,8 +174,8 @@ func publishedCert(w *world.World, host string) (mdCertB64 string, pemDER []byte
 }
 
 type c04Verdict struct {
-	v        *ev.Violation
-	verified bool
+	v             *ev.Violation
+	verified      bool
 	signedStrings []string
 }
 
